@@ -37,8 +37,8 @@ static const OpInfo OPS[H_NOPS] = {
   [H_REGHOLD] = { "reghold", 1 },   /* n: a fresh object referenced from a callee-saved register only while n allocations run */
 };
 
-enum { HK_NODE, HK_REF, HK_BOX, HK_ARR, HK_LST, HK_TBLV, HK_TBLK, HK_TREV, HK_TREK, HK_TUP, HK_JUNK, HK_N };
-static const char* HKNAME[] = { "Node", "Ref", "Box", "Array", "List", "TableV", "TableK", "TreeV", "TreeK", "Tuple", "Junk" };
+enum { HK_NODE, HK_REF, HK_BOX, HK_ARR, HK_LST, HK_TBLV, HK_TBLK, HK_TREV, HK_TREK, HK_TUP, HK_JUNK, HK_RANGE, HK_SLICE, HK_OWNEDINT, HK_N };
+static const char* HKNAME[] = { "Node", "Ref", "Box", "Array", "List", "TableV", "TableK", "TreeV", "TreeK", "Tuple", "Junk", "Range", "Slice", "OwnedInt" };
 enum { CL_MANAGED, CL_ROOT, CL_RAW, CL_UNREG };
 
 /* probe object: plain struct, no Mark instance => scanned conservatively */
@@ -131,7 +131,8 @@ static int new_obj(var p, int kind, int cls) {
   pmap_put(hdr_of(p), oid);
   /* C19: constructing type, heap allocation class, size(type) usable bytes */
   var want = kind == HK_NODE ? Node_T : kind == HK_REF ? Ref : kind == HK_BOX ? Box : kind == HK_ARR ? Array : kind == HK_LST ? List :
-             (kind == HK_TBLV || kind == HK_TBLK) ? Table : (kind == HK_TREV || kind == HK_TREK) ? Tree : kind == HK_TUP ? Tuple : Int;
+             (kind == HK_TBLV || kind == HK_TBLK) ? Table : (kind == HK_TREV || kind == HK_TREK) ? Tree : kind == HK_TUP ? Tuple :
+             kind == HK_RANGE ? Range : kind == HK_SLICE ? Slice : Int;
   if (type_of(p) isnt want) HV("C19", "C19:wrong-type:new", "new %s has type %s", HKNAME[kind], c_str(type_of(p)));
 #if CELLO_ALLOC_CHECK == 1
   if (header(p)->alloc isnt (var)AllocHeap) HV("C19", "C19:wrong-alloc-class:new", "new %s is not tagged AllocHeap", HKNAME[kind]);
@@ -297,6 +298,7 @@ static int candidates(int32_t* out, int cap, int want_container) {
     Obj* o = &O[i];
     if (!o->alive || o->kind == HK_JUNK || o->owner >= 0) continue;
     if (!(o->reach || o->cls == CL_ROOT || o->cls == CL_RAW || o->cls == CL_UNREG)) continue;
+    if (o->kind >= HK_RANGE && want_container == 1) continue;
     if (want_container == 1 && o->cidx < 0 && o->kind != HK_NODE && o->kind != HK_REF) continue;
     out[n++] = i;
   }
@@ -335,7 +337,8 @@ static void kill_obj(int oid) {
   o->alive = 0;
   if (g_stopped && o->registered) o->deferred = 1;
   shadow_drop_edges_to(oid);
-  if (o->kind == HK_BOX && o->e[0] >= 0) kill_obj(o->e[0]);
+  /* whatever it owns goes with it (Box -> object, Range -> its Int, Slice -> its Range) */
+  for (int i = 0; i < g_nobj; i++) if (O[i].owner == oid && O[i].alive) kill_obj(i);
 }
 
 static void do_burst(int n) {
@@ -365,10 +368,42 @@ static void op_newref(const Op* op) {
   stat_add("heap.new_ref", 1);
 }
 
+static int pick_obj(int64_t a, int want_src);
+static void op_newowner(const Op* op, int which) {
+  /* heap Range owns a managed Int; heap Slice owns a Range (which owns an Int) and refers to an iterable */
+  int s = (int)(((op->a[0] % NSLOT) + NSLOT) % NSLOT), cls = cls_norm(op->a[2]);
+  if (cls == CL_RAW) cls = g_stopped ? CL_UNREG : CL_MANAGED;
+  int inner = g_stopped ? CL_UNREG : CL_MANAGED;
+  if (which == 1) {
+    /* the iterable: some live sequence container */
+    int it = -1;
+    for (int k = 0; k < 6 && it < 0; k++) { int c = pick_obj(op->a[1] + k, 1); if (c >= 0 && (O[c].kind == HK_ARR || O[c].kind == HK_LST || O[c].kind == HK_TUP) && obj_traversed(&O[c])) it = c; }
+    if (it < 0) which = 0;
+    else {
+      struct Slice* sl = cls == CL_ROOT ? (struct Slice*)new_root_with(Slice, tuple(O[it].ptr)) : (struct Slice*)new_with(Slice, tuple(O[it].ptr));
+      int so = new_obj(sl, HK_SLICE, cls);
+      slot_store(s, so);
+      int ro = new_obj(sl->range, HK_RANGE, inner);
+      int io = new_obj(((struct Range*)sl->range)->value, HK_OWNEDINT, inner);
+      O[so].e[0] = ro; O[so].e[1] = it; O[ro].owner = so; O[ro].e[0] = io; O[io].owner = ro;
+      stat_add("heap.new_slice", 1);
+      return;
+    }
+  }
+  struct Range* r = cls == CL_ROOT ? (struct Range*)new_root_with(Range, tuple($I(5))) : (struct Range*)new_with(Range, tuple($I(5)));
+  int ro = new_obj(r, HK_RANGE, cls);
+  slot_store(s, ro);
+  int io = new_obj(r->value, HK_OWNEDINT, inner);
+  O[ro].e[0] = io; O[io].owner = ro;
+  stat_add("heap.new_range", 1);
+}
+
 static void op_newbox(const Op* op) {
   /* a Box that owns a fresh Node, or a Box owning a Box owning a Node: ownership chains */
   int s = (int)(((op->a[0] % NSLOT) + NSLOT) % NSLOT), cls = cls_norm(op->a[2]);
-  int depth = 1 + (int)(((op->a[1] % 2) + 2) % 2);
+  int sel = (int)(((op->a[1] % 4) + 4) % 4);
+  if (sel >= 2) { op_newowner(op, sel - 2); return; }
+  int depth = 1 + sel;
   if (cls == CL_RAW) cls = g_stopped ? CL_UNREG : CL_MANAGED;
   int inner_cls = g_stopped ? CL_UNREG : CL_MANAGED;
   struct Node* n = new_with(Node_T, tuple());
@@ -508,6 +543,7 @@ static void op_del(const Op* op) {
   switch (cls) { case CL_ROOT: del_root(p); break; case CL_RAW: del_raw(p); break; default: del(p); break; }
   stat_add(cls == CL_ROOT ? "heap.del_root" : cls == CL_RAW ? "heap.del_raw" : cls == CL_UNREG ? "heap.del_unregistered" : (g_stopped ? "heap.del_while_stopped" : "heap.del"), 1);
   if (O[oid].kind == HK_BOX) stat_add("heap.del_box", 1);
+  if (O[oid].kind == HK_RANGE || O[oid].kind == HK_SLICE) stat_add("heap.del_owner_view", 1);
 }
 
 static void op_chain(const Op* op) {
@@ -532,7 +568,7 @@ static void op_copy(const Op* op) {
   int s = (int)(((op->a[0] % NSLOT) + NSLOT) % NSLOT);
   int src = pick_obj(op->a[1], 0); if (src < 0 || g_stopped) return;
   Obj* o = &O[src];
-  if (o->kind == HK_BOX || o->kind == HK_JUNK) return;   /* copying a Box would give one object two owners */
+  if (o->kind == HK_BOX || o->kind == HK_JUNK || o->kind >= HK_RANGE) return;   /* copying a Box would give one object two owners; copy of a heap Range assigns into a NULL value */
   if (!obj_traversed(o)) return;   /* fields of raw / unregistered objects may dangle (the collector never saw them) */
   if ((o->kind == HK_TBLK || o->kind == HK_TREK)) return;
   var c = copy(o->ptr);
@@ -599,6 +635,8 @@ static void op_badfree(const Op* op) {
 
 /* ------------------------------------------------------------ execution */
 static void heap_nontrivial(void);
+static void heap_final_checks(const Plan* p);
+static long g_freed_before_teardown;
 
 static void heap_execute(const Plan* p) {
   volatile var slots[NSLOT];
@@ -662,11 +700,18 @@ static void heap_execute(const Plan* p) {
   for (int i = 0; i < NTLS; i++) if (g_tls_oid[i] >= 0) { rem(current(Thread), $S((char*)tlskeys[i])); g_tls_oid[i] = -1; }
   for (int i = 0; i < NSLOT; i++) slot_store(i, -1);
   sim_scrub_stack();
-  long before = 0; for (int i = 0; i < g_nobj; i++) before += O[i].freed;
+  g_freed_before_teardown = 0; for (int i = 0; i < g_nobj; i++) g_freed_before_teardown += O[i].freed;
+  g_slots = NULL;
+  if (plan_env(p, "inthread", 0)) { g_torn_down = 1; stat_add("heap.thread_mutators", 1); return; }   /* the thread's exit tears its collector down */
   Cello_Exit();
   g_torn_down = 1;
-  long swept = -before; for (int i = 0; i < g_nobj; i++) swept += O[i].freed;
+  heap_final_checks(p);
+}
+
+static void heap_final_checks(const Plan* p) {
+  long swept = -g_freed_before_teardown; for (int i = 0; i < g_nobj; i++) swept += O[i].freed;
   stat_add("heap.freed_at_teardown", swept);
+  progress(p->nops, g_focus == 17 ? "C17" : g_focus == 1 ? "C01" : "C06", "teardown-check");
   for (int i = 0; i < g_nobj; i++) {
     Obj* o = &O[i];
     char cls[128];
@@ -678,7 +723,8 @@ static void heap_execute(const Plan* p) {
       if (O[w].cls == CL_UNREG && O[w].alive) must_be_gone = 0;
     }
     if (must_be_gone && !o->freed) {
-      const char* why = o->owner >= 0 ? "owned-by-Box" : o->cls == CL_UNREG ? "allocated-while-stopped" : o->deferred ? "deleted-while-stopped" : !o->alive ? "explicitly-deleted" : "garbage";
+      char ownedby[32]; snprintf(ownedby, sizeof ownedby, "owned-by-%s", o->owner >= 0 ? HKNAME[O[o->owner].kind] : "");
+      const char* why = o->owner >= 0 ? ownedby : o->cls == CL_UNREG ? "allocated-while-stopped" : o->deferred ? "deleted-while-stopped" : !o->alive ? "explicitly-deleted" : "garbage";
       snprintf(cls, sizeof cls, "C06:never-released:%s:%s", HKNAME[o->kind], why);
       HV("C06", cls, "object #%d (%s, %s) was never released by teardown", i, HKNAME[o->kind], why);
     }
@@ -712,6 +758,7 @@ static void heap_generate(Plan* p, Rng* r) {
     if (v == PLACE_ADVERSARIAL) plan_env_set(p, "alloc.advmod", (int)rng_below(r, 3));
   }
   if (plan_env(p, "alloc.realloc", -1) < 0) plan_env_set(p, "alloc.realloc", (int)rng_below(r, 3));
+  if (plan_env(p, "inthread", -1) < 0 && focus != 19) plan_env_set(p, "inthread", rng_chance(r, 1, 5));
   int nops = rng_chance(r, 6, 10) ? 10 + (int)rng_below(r, 50) : 60 + (int)rng_below(r, 240);
   int stopped = 0;
   int allow_stop = (focus == 6 || focus == 17 || focus == 0) && !(plan_env(p, "avoid_kf", 0) & 8);
@@ -741,7 +788,19 @@ static void heap_generate(Plan* p, Rng* r) {
   }
 }
 
-static void heap_execute_entry(const Plan* p) { heap_execute(p); }
+static const Plan* g_thread_plan;
+static var heap_thread_entry(var args) { (void)args; heap_execute(g_thread_plan); return NULL; }
+static void heap_execute_entry(const Plan* p) {
+  if (!plan_env(p, "inthread", 0)) { heap_execute(p); return; }
+  /* the mutator is a Cello worker thread: its collector is the one Thread_Init_Run creates, and the teardown that ends the
+   * plan is the thread's exit instead of Cello_Exit */
+  g_thread_plan = p;
+  var t = new_raw(Thread, $(Function, heap_thread_entry));
+  call(t);
+  join(t);
+  del_raw(t);
+  heap_final_checks(p);
+}
 
 const Scenario scen_heap = { "heap", OPS, H_NOPS, heap_generate, heap_execute_entry, "C01" };
 #endif /* CELLO_NGC */
